@@ -30,7 +30,8 @@ FUNCS = ["xdis.marsh.dumps", "xdis.marsh.loads", "xdis.marsh._Marshaller.dump*",
          "xdis.marsh._FastUnmarshaller.*", "xdis.marsh (chunk-to-bytes assembly in dumps)"]
 
 FLOATS = [("1.5", 1.5), ("-0.0", -0.0), ("inf", float("inf")), ("nan", float("nan")), ("1e100", 1e100), ("sub", 5e-324),
-          ("third", 1.0 / 3.0)]
+          ("third", 1.0 / 3.0), ("d17a", 0.1 + 0.2), ("d17b", 2 ** 0.5), ("max", 1.7976931348623157e308), ("2p53p1", 9007199254740993.0),
+          ("minnorm", 2.2250738585072014e-308)]
 
 
 # ---- value shapes --------------------------------------------------------------------------------------------------
